@@ -27,7 +27,20 @@ def gen_models(rng, n, res, depth_max=3):
     while len(out) < n and tries < n * 5:
         tries += 1
         g = ModelGen(random.Random(rng.getrandbits(64)))
-        ast = lookalike_ast(rng) if tries % 8 == 0 else g.prop(rng.randint(0, depth_max))
+        if tries % 8 == 0:
+            ast = lookalike_ast(rng)
+        elif tries % 8 == 4:
+            # the configurator's Any / Xor (with every kind of default) are models too: alone, or under a plog connective
+            cg = ConfigGen(random.Random(rng.getrandbits(64)))
+            ast = cg.simple()
+            if ast["k"] in ("CcAny", "CcXor") and len(ast["ch"]) < 3 and rng.random() < 0.7:
+                extra = [n for n in cg.items if n not in {c.get("id") for c in ast["ch"]}]
+                if extra and all(c["k"] in ("str", "var") for c in ast["ch"]):
+                    ast["ch"].append(cg.leaf(extra[0]))
+            if rng.random() < 0.4:
+                ast = {"k": rng.choice(["All", "Any", "AtLeast"]), "ch": [ast, cg.leaf(rng.choice(cg.items))], "id": rng.choice([None, "W"]), "v": 1, "s": None}
+        else:
+            ast = g.prop(rng.randint(0, depth_max))
         orc = IdOracle()
         try:
             with orc:
@@ -42,6 +55,12 @@ def gen_models(rng, n, res, depth_max=3):
         out.append((ast, m, neg, orc))
     return out
 
+def _c05_raised(e, res, ast, m, neg, *a, **k):
+    res.violation("oracle", f"evaluate on the model or its negation raised {type(e).__name__}: {str(e)[:160]} - model {m!r}",
+                  {"op": "negate", "model": ast_json(ast), "env": {}, "required": None, "observed": None})
+    return False
+
+@guarded(_c05_raised)
 def oracle_one(res, ast, m, neg, rng, n_env, exhaustive_cap=0):
     lv = leaves_of(m)
     envs = all_envs(lv, exhaustive_cap) if exhaustive_cap else None
